@@ -7,15 +7,6 @@ Import ListNotations.
 Require Import PV.Core.Obj PV.Core.Val PV.Core.Cls PV.Core.Member PV.Core.CanAssignK PV.Core.C03Run.
 Require Import PV.Proofs.Dedup.
 
-(* list / tuple / set / frozenset literals: what replace_known_sequence_value expands *)
-Definition seq_elems (o : obj) : option (list obj) :=
-  match o with
-  | OTuple _ l | OList _ l | OSet _ l | OFrozenset l => Some l
-  | _ => None
-  end.
-
-Definition all_false (fl : list bool) : bool := forallb negb fl.
-
 Section Ok.
   Context (ct : class_table).
 
@@ -73,7 +64,12 @@ Section Ok.
       all_false flags = true -> length flags = length ms ->
       tassign ct c_tuple c_tuple = true -> tassign ct c_list c_tuple = false -> tassign ct c_set c_tuple = false ->
       (forall es k X e, seq_elems o = Some es -> nth_error ms k = Some X -> nth_error es k = Some e -> ok X e) ->
-      ok (VNode (TSeq c_tuple flags) (a :: ms)) o.
+      ok (VNode (TSeq c_tuple flags) (a :: ms)) o
+  (* TypedDict against anything: a dict literal must have string keys only *)
+  | ok_typeddict : forall keys he ro va ts o,
+      (forall i kvs, o = ODict i kvs -> forallb (fun kv => is_str (fst kv)) kvs = true) ->
+      (forall i kvs t kv, o = ODict i kvs -> In t ts -> In kv kvs -> ok t (snd kv)) ->
+      ok (VNode (TTypedDict keys he ro) (va :: ts)) o.
 
   Lemma dedup_acc_length_le : forall l acc, length (dedup_acc lit_E acc l) <= length acc + length l.
   Proof.
@@ -147,13 +143,61 @@ Section Ok.
         * now rewrite andb_false_r.
   Qed.
 
+  Lemma dict_get_in : forall k kvs v, dict_get k kvs = Some v -> exists kv, In kv kvs /\ snd kv = v.
+  Proof.
+    induction kvs as [|[k' v'] kvs IH]; intros v H; simpl in H; [discriminate|].
+    destruct (py_eq k' k).
+    - injection H as <-. exists (k', v'). split; [left; reflexivity|reflexivity].
+    - destruct (IH v H) as [kv [Hin Hs]]. exists kv. split; [right; exact Hin|exact Hs].
+  Qed.
+
+  (* the TypedDict walks of model and spec agree when they agree on (entry type, value) pairs *)
+  Lemma tdgo_eq : forall (allkeys : list (N * (bool * bool))) (he : bool) kvs ts ks,
+    (forall t kv, In t ts -> In kv kvs -> ca ct t (snd kv) = member ct t (snd kv)) ->
+    (fix tdgo (ks : list (N * (bool * bool))) (ts : list val) {struct ts} : bool :=
+       match ks, ts with
+       | (k, (req, _)) :: ks', t :: ts' =>
+           match dict_get (OStr [k]) kvs with
+           | Some v => ca ct t v
+           | None => negb req
+           end && tdgo ks' ts'
+       | [], [ext] =>
+           if he then forallb (fun kv => key_named allkeys (fst kv) || ca ct ext (snd kv)) kvs else false
+       | [], [] => negb he
+       | _, _ => false
+       end) ks ts
+    =
+    (fix tdgo (ks : list (N * (bool * bool))) (ts : list val) {struct ts} : bool :=
+       match ks, ts with
+       | (k, (req, _)) :: ks', t :: ts' =>
+           match dict_get (OStr [k]) kvs with
+           | Some v => member ct t v
+           | None => negb req
+           end && tdgo ks' ts'
+       | [], [ext] =>
+           if he then forallb (fun kv => key_named allkeys (fst kv) || member ct ext (snd kv)) kvs else false
+       | [], [] => negb he
+       | _, _ => false
+       end) ks ts.
+  Proof.
+    intros allkeys he kvs ts. induction ts as [|t ts IH]; intros ks H.
+    - destruct ks as [|[k [req ro]] ks]; reflexivity.
+    - destruct ks as [|[k [req ro]] ks].
+      + destruct ts; [|reflexivity]. destruct he; [|reflexivity].
+        apply forallb_ext_in2. intros kv Hkv. f_equal. apply H; [left; reflexivity|exact Hkv].
+      + rewrite (IH ks) by (intros t' kv Ht Hkv; apply H; [right; exact Ht|exact Hkv]).
+        f_equal. destruct (dict_get (OStr [k]) kvs) as [v|] eqn:D; [|reflexivity].
+        destruct (dict_get_in _ _ _ D) as [kv [Hin Hs]]. rewrite <- Hs. apply H; [left; reflexivity|exact Hin].
+  Qed.
+
   Theorem ok_ca_member : forall T o, ok T o -> ca ct T o = member ct T o.
   Proof.
     intros T o H. induction H as
       [s o|o' o|o' o|d lit o Hn|n d o Hn|o|vs o Hv IHv|md t o Ht IHt|ex d lit o Hc
       |d X o es Hse Hk Htab Hd He IHe|d args o Hit Hgb Hnom|d K V o es Hse Hk Hgb Hnom
       |d K V i kvs Hk Hsub Hgb Hdk Hdv HeK IHeK HeV IHeV|d X i kvs Hk Htab Hdk He IHe
-      |flags a ms o Hf Hl Htt Hlt Hst He IHe].
+      |flags a ms o Hf Hl Htt Hlt Hst He IHe
+      |keys he ro va ts o Hstr Hent IHent].
     - reflexivity.
     - reflexivity.
     - reflexivity.
@@ -227,5 +271,9 @@ Section Ok.
         apply seq_go_mseq; auto. intros k X e H1 H2. eapply IHe; eauto. reflexivity.
       + cbn [class_of]. rewrite Hlt. reflexivity.
       + cbn [class_of]. rewrite Hst. reflexivity.
+    - (* TypedDict *)
+      cbn [ca member]. destruct o; try reflexivity.
+      rewrite (Hstr id kvs eq_refl). cbn [andb].
+      apply tdgo_eq. intros t kv Ht Hkv. eapply IHent; eauto.
   Qed.
 End Ok.
